@@ -4,7 +4,7 @@ import numpy as np
 from harness import common as C
 from harness import zoo as Z
 
-ANCHORS = ["T3", "T5eof", "T5rot", "T5flag", "T7chain", "T7pipe", "T5cpcca"]
+ANCHORS = ["T3", "T5eof", "T5rot", "T5flag", "T7chain", "T7pipe", "T5cpcca", "T9text"]
 MODELS = ["RotCase", "FlagCase"]
 RULE = ("every transform-capable class (EOF, ComplexEOF, SparsePCA, POP, CPCCA/MCA/CCA/RDA and complex variants, their rotators with power 1..3, "
         "multi.CCA) x alpha grid x use_pca x normalized x fresh rotator objects and rotator objects that rotated another model and were queried before x structure (1-2 sample dims, 1-2 feature dims, fully missing samples); "
